@@ -247,11 +247,15 @@ def _close(a, b, slack=None):
             allowed = allowed + 10 * np.broadcast_to(slack, a.shape)
         except ValueError:
             pass
+    comparable = fin & np.isfinite(allowed)
+    if not comparable.any():
+        return True, 0, 0.0, str(a.shape)
     with np.errstate(all="ignore"):
-        excess = np.where(fin, np.abs(a - b) - allowed, -1.0)
-        rel = np.where(fin, np.abs(a - b) / scale, 0.0)
+        excess = np.where(comparable, np.abs(a - b) - allowed, -1.0)
+        rel = np.where(comparable, np.abs(a - b) / scale, 0.0)
     err = float(np.nanmax(rel))
-    return bool(np.nanmax(excess) <= 0 and same_nonfinite), int(fin.sum()), err, str(a.shape)
+    masked_everywhere_nonfinite = bool(np.all((np.isfinite(a) == np.isfinite(b)) | ~np.isfinite(allowed)))
+    return bool(np.nanmax(excess) <= 0 and masked_everywhere_nonfinite), int(comparable.sum()), err, str(a.shape)
 
 
 def _perturbed(data):
@@ -266,8 +270,48 @@ def _perturbed(data):
     return out
 
 
-def _condition_slack(expr, names, data, reference):
-    """|f(x(1+1e-12)) - f(x)| element-wise (inf where not finite); (slack, ill_conditioned?)"""
+def _ordering_operands(expr):
+    """Expressions whose *ordering* decides a branch: both sides of every relational and the
+    argument of every ComplexSqrt (which prints as a Piecewise on ``x < 0``)."""
+    sp = _sp()
+    from sympy.core.relational import Relational  # noqa: PLC0415
+
+    ops = []
+    for node in sp.preorder_traversal(expr):
+        if isinstance(node, Relational):
+            ops.append(node.lhs - node.rhs)
+        elif type(node).__name__ == "ComplexSqrt" and node.args:
+            ops.append(node.args[0])
+    return ops
+
+
+def _hazard_mask(expr, names, data, n_events):
+    """Events at which an ordered comparison receives a complex (or nan) operand: numpy orders
+    complex numbers lexicographically, sympy's cse may rewrite ``-a < 0`` as ``a > 0``, so the
+    value of the generated code is not defined there (input outside the domain of the classes)."""
+    np = _np()
+    ops = _ordering_operands(expr)
+    mask = np.zeros(n_events, dtype=bool)
+    if not ops:
+        return mask
+    try:
+        vals = _lambdify_eval(ops, names, data, cse=False)
+    except Exception:  # noqa: BLE001
+        return np.ones(n_events, dtype=bool)
+    for v in vals:
+        v = np.asarray(v, dtype=complex)  # noqa: PLW2901
+        bad = ~np.isfinite(v) | (np.abs(v.imag) > 1e-13 * np.maximum(1.0, np.abs(v)))
+        if bad.ndim == 0 or bad.shape[0] != n_events:
+            if bad.any():
+                mask[:] = True
+        else:
+            mask |= bad.reshape(n_events, -1).any(axis=1)
+    return mask
+
+
+def _condition_slack(expr, names, data, reference, n_events=3):
+    """Element-wise allowance: |f(x(1+1e-12)) - f(x)| (inf where not finite, inf at events with
+    an ordering hazard); returns (slack, ill_conditioned?, n_hazard_events)"""
     np = _np()
     try:
         moved = np.asarray(_lambdify_eval(expr, names, _perturbed(data), cse=True), dtype=complex)
@@ -277,9 +321,16 @@ def _condition_slack(expr, names, data, reference):
         slack = np.where(np.isfinite(slack), slack, np.inf)
         scale = np.maximum(1.0, np.abs(ref))
         ill = bool(np.any(slack > TOL * np.where(np.isfinite(scale), scale, 1.0)))
+        mask = _hazard_mask(expr, names, data, n_events)
+        if mask.any():
+            if slack.ndim >= 1 and slack.shape[0] == n_events:
+                slack = slack.copy()
+                slack[mask] = np.inf
+            else:
+                slack = np.full(slack.shape, np.inf)
     except Exception:  # noqa: BLE001
-        return None, False
-    return slack, ill
+        return None, False, 0
+    return slack, ill, int(mask.sum())
 
 
 def _evalf_points(expr, names):
@@ -315,7 +366,7 @@ def numeric_same(a, b):
             vb = _lambdify_eval(b, names, data, cse=True)
         except Exception as exc:  # noqa: BLE001  (both sides are sympy-only trees: not a verdict)
             return None, {"why": f"lambdify of an unfolded side failed: {type(exc).__name__}: {exc}"[:200]}
-        slack, ill = _condition_slack(a, names, data, va)
+        slack, ill, _ = _condition_slack(a, names, data, va)
         same, n_fin, err, shape = _close(va, vb, slack)
         if n_fin == 0:
             return None, {"why": "no finite value", "shape": shape}
@@ -658,13 +709,15 @@ def check_codegen(e, d, tree, labels, nontrivial):
     unfolded = {}
     for cse in (False, True):
         unfolded[cse] = under_test(f"lambdify(doit, cse={cse})", _lambdify_eval, d, names, data, cse=cse)
-    slack, ill = _condition_slack(d, names, data, unfolded[True])
+    slack, ill, n_hazard = _condition_slack(d, names, data, unfolded[True])
     if ill:
         labels.append("codegen:ill_conditioned")
+    if n_hazard:
+        labels.append("codegen:complex_operand_of_ordered_comparison")
     same, n_fin, err, shape = _close(unfolded[False], unfolded[True], slack)
     if not same:
         return violation("codegen_cse_on_vs_off", nontrivial, labels, max_rel_err=err, shape=shape)
-    labels.append("codegen:all_nan" if n_fin == 0 else "codegen:finite")
+    labels.append("codegen:nothing_comparable" if n_fin == 0 else "codegen:finite")
     folded_ok = 0
     for cse in (False, True):
         try:
